@@ -32,7 +32,7 @@ def bounds(tier):
 
 def cos_matrix(A, B, absolute):
     A, B = ref.hp(A), ref.hp(B)
-    C = (A / np.linalg.norm(A, axis=0)).T @ (B / np.linalg.norm(B, axis=0))
+    C = (A / np.linalg.norm(A, axis=0)).conj().T @ (B / np.linalg.norm(B, axis=0))
     return np.abs(C) if absolute else C
 
 
@@ -124,15 +124,23 @@ def run_case(case, ctx):
                     break
     elif g == "corrindex":
         method = gen.choice(rs, ["stacked", "max_score", "min_score", "avg_score"])
+        if rs.rand() < 0.2:
+            # the index is defined through |x^H y|: complex factor matrices (e.g. of a complex CP model) are in scope
+            dt = "complex128"
+            eps = tol.eps_of("float64")
+            ctx.count("corrindex_complex")
         F1 = [nonzero_cols(gen.arr(rs, [n, R], dt, gen.choice(rs, ["gauss", "scaled"]))) for n in rows]
         equiv = bool(rs.rand() < 0.5)
         desc = {"gen": g, "rows": rows, "rank": R, "method": method, "equivalent": equiv, "dtype": dt}
         if equiv:
             p = rs.permutation(R)
-            common = rs.uniform(0.3, 3, R) * rs.choice([-1, 1], R)
+            def scal():
+                sc_ = rs.uniform(0.3, 3, R) * rs.choice([-1, 1], R)
+                return sc_ * np.exp(1j * rs.uniform(0, 2 * np.pi, R)) if dt == "complex128" else sc_
+            common = scal()
             F2 = []
             for f in F1:
-                sc = common if method == "stacked" else rs.uniform(0.3, 3, R) * rs.choice([-1, 1], R)
+                sc = common if method == "stacked" else scal()
                 F2.append((f[:, p] * sc).astype(dt))
             s_def = correlation_index(list(F1), list(F2), method=method)
             s_tol = correlation_index(list(F1), list(F2), method=method, tol=2000 * eps)
@@ -159,7 +167,7 @@ def run_case(case, ctx):
             elif want > 1e-3 and s == 0:
                 ctx.violation("C20:correlation_index:nonzero-for-different:%s" % method, "non-equivalent factor sets score exactly 0", desc)
         if R > 1:
-            ctx.nontriv(dict(desc, h=float(np.sum(F1[0]))))
+            ctx.nontriv(dict(desc, h=float(np.sum(np.abs(F1[0])))))
     elif g == "error_metrics":
         shp = gen.shape(rs, int(rs.randint(1, 4)), 2, 6)
         y, yp = gen.arr(rs, shp, dt, "gauss"), gen.arr(rs, shp, dt, "gauss")
